@@ -11,6 +11,7 @@
 //   drv_discrete --out F --mode probe --id <known-finding id>   one dedicated scenario
 //   VERIF_C09_DUMP=1 adds a "raw" member with the raw doubles (debugging only, never validated)
 #include "tracer.h"
+#include "param_audit.h"
 
 #include <Bpp/Exceptions.h>
 #include <Bpp/Numeric/Constraints.h>
@@ -1134,6 +1135,7 @@ static std::vector<std::string> splitCsv(const std::string& s)
 
 int main(int argc, char** argv)
 {
+  vt::installParamAudit(); // C01: audit of every Parameter of the process when VERIF_PARAM_AUDIT=<file> is set
   installCrashHandlers();
   std::string out = argStr(argc, argv, "--out", "");
   std::string mode = argStr(argc, argv, "--mode", "random");
